@@ -483,13 +483,15 @@ class BundleRef:
         self._initialized = True
 
     def __eq__(self, other) -> bool:
-        """Port-reference equality requires *identity* between parents
+        """Bundle-reference equality requires *identity* between parents
         (and of course equality of attribute-name)."""
-        return self.inst is other.inst and self.attrname == other.attrname
+        if not isinstance(other, BundleRef):
+            return NotImplemented
+        return self.parent is other.parent and self.attrname == other.attrname
 
     def __hash__(self):
-        """Hash references as the tuple of their instance-address and name"""
-        return hash((id(self.inst), self.attrname))
+        """Hash references as the tuple of their parent's address and name"""
+        return hash((id(self.parent), self.attrname))
 
     def path(self) -> List[str]:
         """Get the path to this potentially nested reference."""
